@@ -37,7 +37,7 @@ inductive Res where
   /-- the Go code panics -/
   | panic
   /-- a function body that is not modelled (float arithmetic, regexp, clock, …) was reached -/
-  | opaque
+  | unmodelled
   deriving Repr, Inhabited
 
 /-- how the typechecker can fail -/
